@@ -112,6 +112,7 @@ type Ctx struct {
 	ModelHits     int
 	KnownHits     int
 	Lemmas        int
+	dumpN         int
 	Queries       int
 	FuncsExecuted map[string]int64
 	ModelsUsed    map[string]int64
@@ -406,6 +407,7 @@ func (c *Ctx) branch(cond *sym.Term) bool {
 	c.forks++
 	c.decisions = append(c.decisions, dTrue)
 	c.Solver.Assert(cond)
+	c.model = nil // the old model was not shown to satisfy cond
 	return true
 }
 
@@ -572,9 +574,41 @@ func (c *Ctx) assignment(m *sym.Model) map[string]string {
 func (c *Ctx) checkObligation(neg *sym.Term) (sym.Result, *sym.Model) {
 	c.Queries++
 	r, m := c.Solver.CheckWithModel(neg, c.vars)
+	if d := os.Getenv("VERIF_DUMP_CEX"); d != "" && r == sym.Sat {
+		c.dumpStack(d, neg)
+	}
 	if r != sym.Unknown {
 		return r, m
 	}
+	return c.portfolio(neg)
+}
+
+func (c *Ctx) dumpStack(d string, neg *sym.Term) {
+	{
+		c.dumpN++
+		var sb strings.Builder
+		sb.WriteString("(declare-fun rnd (Real) Real)\n")
+		seen := map[string]bool{}
+		all := append(c.Solver.Assertions(), neg)
+		for _, a := range all {
+			vs := map[*sym.Term]bool{}
+			sym.Vars(a, vs, map[int]bool{})
+			for v := range vs {
+				if !seen[v.Name] {
+					seen[v.Name] = true
+					fmt.Fprintf(&sb, "(declare-const %s %s)\n", v.Name, v.Sort)
+				}
+			}
+		}
+		for _, a := range all {
+			fmt.Fprintf(&sb, "(assert %s)\n", sym.Print(a))
+		}
+		sb.WriteString("(check-sat)\n(get-model)\n")
+		os.WriteFile(fmt.Sprintf("%s/cex%d.smt2", d, c.dumpN), []byte(sb.String()), 0o644)
+	}
+}
+
+func (c *Ctx) portfolio(neg *sym.Term) (sym.Result, *sym.Model) {
 	// portfolio retry: replay the whole assertion stack on the other solvers
 	for _, kind := range []string{"z3-new", "cvc5", "z3"} {
 		if kind == c.Solver.Kind {
@@ -612,12 +646,18 @@ func (c *Ctx) Assert(label string, v value, site string) {
 		// concrete failure on a feasible path
 		m := c.model
 		if m == nil {
-			if r := c.refreshModel(); r == sym.Unsat {
+			r := c.refreshModel()
+			if r == sym.Unsat {
 				panic(abortPath{"infeasible", "path infeasible at failing assertion"})
 			}
+			if r == sym.Unknown {
+				c.UnknownObl++
+				c.inconclusive("assertion %q fails on a path whose feasibility the solver could not decide", label)
+				panic(abortPath{"unknown", "feasibility of a failing path unknown"})
+			}
 			m = c.model
-			if m == nil {
-				m = sym.NewModel()
+			if d := os.Getenv("VERIF_DUMP_CEX"); d != "" {
+				c.dumpStack(d, sym.True)
 			}
 		}
 		c.pathCex = append(c.pathCex, Cex{Label: label, Kind: "assert", Assignment: c.assignment(m), Decisions: append([]int(nil), c.decisions...), Site: site, Class: c.class})
